@@ -12,7 +12,7 @@ RULE = ("contracts on inverse_mod / square_root_mod_prime / jacobi evaluated aga
         "non-trivial key = (function, modulus class, argument class) plus the modulus itself for small moduli")
 ASSUMPTIONS = ["CPython big-int arithmetic and pow()", "reference Tonelli-Shanks / Euler criterion / egcd in vf/ref/nt.py (self-tested)",
                "random large primes certified by reference Miller-Rabin (12 fixed + 16 random bases)"]
-REQUIRED = {"quick": ["inv.small", "inv.curve", "inv.big", "sqrt.3mod4.residue", "sqrt.3mod4.nonresidue",
+REQUIRED = {"quick": ["jacobi.huge_composite", "reentrant_calls", "inv.small", "inv.curve", "inv.big", "sqrt.3mod4.residue", "sqrt.3mod4.nonresidue",
                       "sqrt.5mod8.residue", "sqrt.5mod8.nonresidue", "sqrt.1mod8.residue", "sqrt.1mod8.nonresidue",
                       "sqrt.zero", "jacobi.small", "jacobi.composite_big"]}
 EXHAUSTIVE = {"quick": ["inverse_mod: all m in [2,200], a in [-2m,3m] coprime", "sqrt: every prime p<2000, every a",
